@@ -84,6 +84,10 @@ struct SimBinInputStream : public xercesc::BinInputStream {
     XMLSize_t readBytes(XMLByte* const to, const XMLSize_t max) override {
         if (errAt >= 0 && (int64_t)pos >= errAt) { if (st) ++st->errorsRaised; throw xercesc::IOException(__FILE__, __LINE__, xercesc::XMLExcepts::File_CouldNotReadFromFile, xercesc::XMLPlatformUtils::fgMemoryManager); }
         size_t want = max; if (maxChunk) { want = std::min<size_t>(max, 1 + (size_t)chunk.below(maxChunk)); if (st) ++st->shortReads; }
+        // Xerces-C decides the encoding and decodes the XML declaration from what its first read returns (with fewer than four bytes it settles for
+        // UTF-8, with half a declaration in UTF-16 it reports "unable to decode first line").  That is Xerces-C's reading of the BinInputStream
+        // contract, not the library's: the first read delivers up to 256 bytes, short reads start after that.
+        if (pos == 0 && want < 256) want = std::min<size_t>(max, 256);
         size_t n = std::min(want, data.size() - pos);
         if (errAt >= 0 && pos + n > (size_t)errAt) n = (size_t)errAt - pos;
         if (n == 0 && errAt >= 0 && (int64_t)pos >= errAt) { if (st) ++st->errorsRaised; throw xercesc::IOException(__FILE__, __LINE__, xercesc::XMLExcepts::File_CouldNotReadFromFile, xercesc::XMLPlatformUtils::fgMemoryManager); }
